@@ -172,6 +172,13 @@ class Ext:
         return f"<ext {self.dotted}>"
 
 
+class ModuleRaises(Unsupported):
+    """the top level of a module of the package raises (a concrete exception of the program, not a gap of the interpreter)"""
+    def __init__(self, module, exc, text):
+        super().__init__(text)
+        self.module, self.exc = module, exc
+
+
 class SymDict:
     """{**base, k: v, ...} with a symbolic base"""
     def __init__(self, base, items):
@@ -573,7 +580,7 @@ class Interp:
         except Raised as r:
             # an exception at import time would fail every run (and the pinned tests): the interpreter is missing something
             self.mod_env.pop(name, None)
-            raise Unsupported(f"module {name} does not fold: {r.exc.name} {getattr(r.exc, 'args', '')} at line {getattr(getattr(r.exc, 'node', None), 'lineno', '?')}") from None
+            raise ModuleRaises(name, r.exc.name, f"module {name} does not fold: {r.exc.name} {getattr(r.exc, 'args', '')} at line {getattr(getattr(r.exc, 'node', None), 'lineno', '?')}") from None
         except BaseException:
             self.mod_env.pop(name, None)      # never keep a half-initialised module
             raise
